@@ -1,5 +1,5 @@
 (* one program per line, prefix encoding:
-   T | B | C | U n | K m k.. | I nb .. ne .. | F r nb .. ne .. | W nb .. | M np p.. nb .. | A np p.. nk k.. nb .. | L nb ..
+   G <tgt> | T | B | C | U n | K m k.. | I nb .. ne .. | F r nb .. ne .. | W nb .. | M np p.. nb .. | A np p.. nk k.. nb .. | L nb ..
    the line is:  <n> <stmt>*n       output:  E   or   <ok|bad> <facts...> *)
 open Pywf_x
 let rec pos_of_int n = if n = 1 then XH else if n land 1 = 0 then XO (pos_of_int (n lsr 1)) else XI (pos_of_int (n lsr 1))
@@ -10,9 +10,16 @@ let toks = ref []
 let next () = match !toks with [] -> failwith "eof" | x :: r -> toks := r; x
 let int () = int_of_string (next ())
 let rec names k = if k = 0 then [] else let n = n_of_int (int ()) in n :: names (k - 1)
+let rec tgt () =
+  match next () with
+  | "n" -> TName (n_of_int (int ()))
+  | "c" -> TConst
+  | "t" -> let k = int () in let rec go k = if k = 0 then [] else let x = tgt () in x :: go (k - 1) in TTuple (go k)
+  | t -> failwith ("bad target token " ^ t)
 let rec stmts k = if k = 0 then [] else let s = stmt () in s :: stmts (k - 1)
 and stmt () =
   match next () with
+  | "G" -> SAssignT (tgt ())
   | "T" -> SText | "B" -> SBreak | "C" -> SContinue
   | "U" -> SUse (n_of_int (int ()))
   | "K" -> let m = int () in SCallKw (names m)
